@@ -298,6 +298,12 @@ class Interp:
             if x[1] not in env.memo:
                 env.memo[x[1]] = self.expr(env, x[2])
             return env.memo[x[1]]
+        if k == "xs":  # a signal owned by another module
+            return self.mods[x[1]].objs[x[2]]
+        if k == "os":  # a signal owned by no module
+            if ("os", x[2]) not in env.memo:
+                env.memo[("os", x[2])] = h.Signal(width=x[1], name=x[2])
+            return env.memo[("os", x[2])]
         raise Unsupported(k)
 
     def _anon_member(self, env, v):
